@@ -7,6 +7,11 @@
    export <flags> <cap> <hex>   hwloc_topology_export_synthetic into a `cap`-byte buffer
    fix <flags> <hex>            export, reload the exported string, export again
    tryload <hex>                (corpus) set + load + hwloc_topology_check in a child: ok / EINVAL / fail / crash
+   numas <hex>                  the NUMA nodes of the loaded topology by os_index (os/memory/memory-side cache/PUs): `census`
+
+   A description token is <hex> or <hex>@<F>, F = one character per object type: '-' = default type filter, '0'..'3' =
+   hwloc_topology_set_type_filter(type, digit) called between init and load (Hw.Syn.effFilters); no '@' = the historic
+   configuration (I-caches and MemCache KEEP_ALL).
 -/
 import Hw.Io.SyntheticTopo
 import Hw.Io.SyntheticDump
@@ -110,6 +115,58 @@ def absDump (d : Dump) : Option Topo := do
   let numas ← numaL.objs.mapM (objAt d)
   pure { rootMem := rootMem, levels := levels, puIdx := pus.map (·.osidx.toNat), numaIdx := numas.map (·.osidx.toNat) }
 
+/-- <hex> or <hex>@<F>: the description bytes and the filters in force at load -/
+def parseDesc (tok : String) : Option (Bytes × List Nat) :=
+  match tok.splitOn "@" with
+  | [hx] => (StringsEng.parseBytes hx).map (fun bs => (bs, effFilters legacyReq))
+  | [hx, fs] =>
+    let cs := fs.toList
+    if cs.length ≠ tMAX ∨ cs.any (fun c => !(c == '-' || c == '0' || c == '1' || c == '2' || c == '3')) then none else
+    (StringsEng.parseBytes hx).map (fun bs =>
+      (bs, effFilters (cs.map (fun c => if c == '-' then none else some (c.toNat - '0'.toNat)))))
+  | _ => none
+
+def legacyF : List Nat := effFilters legacyReq
+
+/-- the NUMA nodes of a C dump: os_index, local memory, summed sizes of the MemCache objects above, cpuset -/
+def dumpNumas (d : Dump) : Option (List NumaRec) :=
+  (d.objs.filter (fun o => o.type == tNUMA)).mapM (fun o => do
+    let rec up (i : Int) (msc : Nat) (fuel : Nat) : Option Nat :=
+      match fuel, objAt d i with
+      | 0, _ => none
+      | _, none => none
+      | g + 1, some q => if q.type = tMEMCACHE then up q.parent (msc + ((q.attrs[0]?).getD 0).toNat) g else some msc
+    let msc ← up o.parent 0 16
+    let cs ← o.cpuset
+    pure ({ os := o.osidx.toNat, mem := ((o.attrs[0]?).getD 0).toNat, msc := msc, cpus := cs } : NumaRec))
+
+def insertRec (r : NumaRec) : List NumaRec → List NumaRec
+  | [] => [r]
+  | x :: xs => if r.os < x.os then r :: x :: xs else x :: insertRec r xs
+def sortRecs (l : List NumaRec) : List NumaRec := l.foldl (fun acc r => insertRec r acc) []
+
+/-- first difference between the NUMA nodes the description describes and those of the loaded topology.  Without Groups
+(filter KEEP_NONE) a node may hang from a larger object and then takes its cpuset: inclusion is required instead of equality -/
+def censusDiff (f : List Nat) (p : Parsed) (d : Dump) : Option String :=
+  match dumpNumas d with
+  | none => some "unreadable"
+  | some cn =>
+    let mn := sortRecs (census (keeps f tMEMCACHE) p)
+    let cn := sortRecs cn
+    if mn.length ≠ cn.length then some ("count:" ++ toString cn.length ++ "!=" ++ toString mn.length) else
+    (mn.zip cn).findSome? (fun (m, c) =>
+      if m.os ≠ c.os then some ("os:" ++ toString c.os ++ "!=" ++ toString m.os)
+      else if m.mem ≠ c.mem then some ("memory@" ++ toString m.os)
+      else if m.msc ≠ c.msc ∧ f[tMEMCACHE]?.getD 0 ≠ fKeepStructure then some ("memcache@" ++ toString m.os)
+      else if (if keeps f tGROUP then m.cpus ≠ c.cpus else m.cpus &&& c.cpus ≠ m.cpus) then some ("cpuset@" ++ toString m.os)
+      else none)
+
+def bitsOf (n : Nat) : List Nat := (List.range n.log2.succ).filter (fun i => n.testBit i)
+
+def showRec (r : NumaRec) : String :=
+  toString r.os ++ "/" ++ toString r.mem ++ "/" ++ toString r.msc ++ "/" ++
+  (if r.cpus = 0 then "-" else ",".intercalate ((bitsOf r.cpus).map toString))
+
 def joinBytes (cs : List Bytes) : Bytes := cs.flatten
 
 def exportStr (t : Topo) (flags : Nat) : Option Bytes :=
@@ -132,22 +189,22 @@ def rtProject (flags : Nat) (t : Topo) : Topo :=
 def step (u : Unit) (line : String) : Unit × String :=
   match tokens line with
   | ["init", junk, hx] =>
-    match parseNat junk, StringsEng.parseBytes hx with
-    | some _, some bs =>
+    match parseNat junk, parseDesc hx with
+    | some _, some (bs, _) =>
       if bs.any (· == 0) then (u, "bad-op") else
       match parseVerdict bs with
       | (_, some p) => (u, showParsed p)
       | (v, none) => (u, v)
     | _, _ => (u, "bad-op")
   | ["set", hx] =>
-    match StringsEng.parseBytes hx with
-    | some bs =>
+    match parseDesc hx with
+    | some (bs, _) =>
       if bs.any (· == 0) then (u, "bad-op") else
       (u, (parseVerdict bs).1)
     | none => (u, "bad-op")
   | "load" :: hx :: rest =>
-    match StringsEng.parseBytes hx with
-    | some bs =>
+    match parseDesc hx with
+    | some (bs, f) =>
       -- the dump block, lines separated by ";"
       let lines := (" ".intercalate rest).splitOn ";"
       let r := lines.foldl (fun (acc : TopoEng.Partial × Option (Except String Dump)) l =>
@@ -161,7 +218,12 @@ def step (u : Unit) (line : String) : Unit × String :=
         | (_, some p) =>
           if !v.isEmpty then (u, "load WF-FAIL " ++ ",".intercalate (v.take 6)) else
           if !loadable p then (u, "load model-says-not-loadable") else
-          match buildTopo p with
+          if d.filters ≠ f then (u, "load FILTER-DIFF") else
+          -- every NUMA node of the description exists, whatever the filters and whether the tree is regular or not
+          match censusDiff f p d with
+          | some w => (u, "load CENSUS-DIFF " ++ w)
+          | none =>
+          match buildTopo f p with
           | none => (u, "load ok other")
           | some t =>
             match absDump d with
@@ -169,7 +231,7 @@ def step (u : Unit) (line : String) : Unit × String :=
             | some a =>
               if a = t then
                 -- the complete dump: field-by-field comparison + the WF oracle on the model's own result
-                let md := toDump t
+                let md := { toDump t with filters := f }
                 match dumpDiff md d with
                 | some f => (u, "load DUMP-DIFF " ++ f)
                 | none =>
@@ -184,12 +246,12 @@ def step (u : Unit) (line : String) : Unit × String :=
       | none => (u, "load dump-incomplete")
     | none => (u, "bad-op")
   | ["export", flags, cap, hx] =>
-    match parseNat flags, parseNat cap, StringsEng.parseBytes hx with
-    | some flags, some cap, some bs =>
+    match parseNat flags, parseNat cap, parseDesc hx with
+    | some flags, some cap, some (bs, f) =>
       match parseVerdict bs with
       | (_, some p) =>
         if !loadable p then (u, "export skip") else
-        match buildTopo p with
+        match buildTopo f p with
         | none => (u, "export skip")
         | some t =>
           let r := exportChunks t flags
@@ -201,12 +263,12 @@ def step (u : Unit) (line : String) : Unit × String :=
       | (_, none) => (u, "load fail")
     | _, _, _ => (u, "bad-op")
   | ["fix", flags, hx] =>
-    match parseNat flags, StringsEng.parseBytes hx with
-    | some flags, some bs =>
+    match parseNat flags, parseDesc hx with
+    | some flags, some (bs, f) =>
       match parseVerdict bs with
       | (_, some p) =>
         if !loadable p then (u, "fix skip") else
-        match buildTopo p with
+        match buildTopo f p with
         | none => (u, "fix skip")
         | some t =>
           match exportStr t flags with
@@ -216,7 +278,8 @@ def step (u : Unit) (line : String) : Unit × String :=
             match parseVerdict e1 with
             | (v, none) => (u, pre ++ " load2=" ++ v)
             | (_, some p2) =>
-              match buildTopo p2 with
+              -- the exported string is re-imported with every type it can name kept
+              match buildTopo legacyF p2 with
               | none => (u, "fix skip")
               | some t2 =>
                 match exportStr t2 flags with
@@ -226,10 +289,22 @@ def step (u : Unit) (line : String) : Unit × String :=
                       " rt=" ++ (if rtProject flags t2 = rtProject flags t then "1" else "0"))
       | (_, none) => (u, "load fail")
     | _, _ => (u, "bad-op")
+  | ["numas", hx] =>
+    match parseDesc hx with
+    | some (bs, f) =>
+      match parseVerdict bs with
+      | (_, some p) =>
+        -- without Groups a node may take the cpuset of a larger parent; MemCache KEEP_STRUCTURE is not modelled (the `load`
+        -- op still compares count, os_index and memory of every node)
+        if !loadable p ∨ !keeps f tGROUP ∨ f[tMEMCACHE]?.getD 0 = fKeepStructure then (u, "numas skip") else
+        let rs := sortRecs (census (keeps f tMEMCACHE) p)
+        (u, "numas " ++ toString rs.length ++ String.join (rs.map (fun r => " " ++ showRec r)))
+      | (v, none) => (u, "numas " ++ v)
+    | none => (u, "bad-op")
   | ["tryload", hx] =>
     -- corpus op: set + load + hwloc_topology_check in a child process
-    match StringsEng.parseBytes hx with
-    | some bs =>
+    match parseDesc hx with
+    | some (bs, _) =>
       match parseVerdict bs with
       | (_, some p) => (u, if loadable p then "tryload ok" else "tryload skip")
       | (v, none) => (u, "tryload " ++ v)
